@@ -171,7 +171,18 @@ def call_closure(I, clos, args, depth):
     first = clos if isinstance(clos, Ref) else tmp_ref(clos_v)
     if not body.locals[1].startswith("&"):
         first = clos_v
-    return I.run(body, [first] + list(args), depth + 1)
+    # adapt by-reference / by-value to what the closure's parameters declare (`|&b|` vs `|b|`)
+    args = list(args)
+    if body.nargs == len(args) + 1:
+        for i_, a_ in enumerate(args):
+            pty = body.locals[2 + i_]
+            if isinstance(a_, Ref) and not pty.startswith(("&", "*")) and not isinstance(deref(I, a_), Ref):
+                v_ = deref(I, a_)
+                if isinstance(v_, (int, float)):
+                    args[i_] = v_
+            elif not isinstance(a_, Ref) and pty.startswith("&") and isinstance(a_, int):
+                args[i_] = tmp_ref(a_)
+    return I.run(body, [first] + args, depth + 1)
 
 
 def iter_next(I, it, depth):
@@ -282,8 +293,26 @@ def iter_next(I, it, depth):
             return some(sl)
         return NONE()
     if isinstance(it, Ref):
-        return iter_next(I, deref(I, it), depth)
+        tgt_ = deref(I, it)
+        if isinstance(tgt_, Adt) and not tgt_.path.startswith(("core::", "std::", "alloc::", "model::")):
+            # crate iterator behind `&mut`: its `next` may replace `*self`, so hand it the reference itself
+            return _crate_next(I, tgt_, it, depth)
+        return iter_next(I, tgt_, depth)
     if isinstance(it, Adt) and not it.path.startswith(("core::", "std::", "alloc::", "model::")):
+        return _crate_next(I, it, None, depth)
+    raise Unsupported("next() on %r" % (it,))
+
+
+def _hold(it):
+    """An adaptor owns its source iterator; a crate iterator's `next` may assign `*self`, so the
+    adaptor keeps it in a private cell and hands out `&mut` to that cell."""
+    if isinstance(it, Adt) and not it.path.startswith(("core::", "std::", "alloc::", "model::")):
+        return tmp_ref(it)
+    return it
+
+
+def _crate_next(I, it, ref, depth):
+    if True:
         # an iterator type of the crate: run its own `Iterator::next`
         idx = getattr(I.P, "_next_index", None)
         if idx is None:
@@ -295,7 +324,16 @@ def iter_next(I, it, depth):
             I.P._next_index = idx
         c_ = idx.get(it.path, [])
         if len(c_) == 1:
-            return I.run(I.P.fns[c_[0]], [tmp_ref(it)], depth + 1)
+            if ref is None:
+                # held by value by a consumer (`collect`, `any`, `find`): run `next` on a cell and write
+                # the new state back into the same object, so the consumer's next call sees it
+                cell = tmp_ref(it)
+                r_ = I.run(I.P.fns[c_[0]], [cell], depth + 1)
+                new_ = cell.frame.locals[0][0]
+                if new_ is not it and isinstance(new_, Adt):
+                    it.path, it.vi, it.vname, it.fields = new_.path, new_.vi, new_.vname, new_.fields
+                return r_
+            return I.run(I.P.fns[c_[0]], [ref], depth + 1)
     raise Unsupported("next() on %r" % (it,))
 
 
@@ -516,7 +554,7 @@ def call(I, fr, name, fname, k, args, depth):
     if name.endswith("Iterator>::next") or name.endswith("Iterator::next") or (name.endswith("::next") and ("Range" in name or "slice::" in name or "Enumerate" in name)):
         return iter_next(I, args[0], depth)
     if name.endswith("Iterator::enumerate"):
-        return EnumIter(args[0])
+        return EnumIter(_hold(args[0]))
     if name.endswith("Iterator::collect") or name.endswith("Iterator>::collect"):
         g = k.get("g") or []
         tgt = g[-1] if g else ""
@@ -564,9 +602,9 @@ def call(I, fr, name, fname, k, args, depth):
             return some(vals)
         raise Unsupported("collect into %s" % tgt)
     if name.endswith("Iterator::take_while"):
-        return TakeWhileIter(args[0], args[1])
+        return TakeWhileIter(_hold(args[0]), args[1])
     if name.endswith("Iterator::filter"):
-        return FilterIter(args[0], args[1])
+        return FilterIter(_hold(args[0]), args[1])
     if name.endswith("Iterator::count") or name.endswith("Iterator>::count"):
         n = 0
         while iter_next(I, args[0], depth).vi == 1:
@@ -899,6 +937,32 @@ def call(I, fr, name, fname, k, args, depth):
     if name.endswith("ops::Fn::call") or name.endswith("ops::FnMut::call_mut") or name.endswith("ops::FnOnce::call_once"):
         tup = args[1]
         return call_closure(I, args[0], list(tup) if isinstance(tup, list) else [tup], depth)
+    if name.endswith("result::Result::<T, E>::map_or"):
+        o = args[0]
+        return call_closure(I, args[2], [o.fields[0]], depth) if o.vname == "Ok" else args[1]
+    if name.endswith("result::Result::<T, E>::map_or_else"):
+        o = args[0]
+        return call_closure(I, args[2], [o.fields[0]], depth) if o.vname == "Ok" else call_closure(I, args[1], [o.fields[0]], depth)
+    if name.endswith("option::Option::<T>::map_or"):
+        o = args[0]
+        return call_closure(I, args[2], [o.fields[0]], depth) if o.vi == 1 else args[1]
+    if name.endswith("option::Option::<std::option::Option<T>>::flatten") or name.endswith("option::Option::<core::option::Option<T>>::flatten"):
+        o = args[0]
+        return o.fields[0] if o.vi == 1 else o
+    if name.endswith("option::Option::<T>::xor"):
+        a_, b_ = args[0], args[1]
+        return a_ if (a_.vi == 1 and b_.vi == 0) else (b_ if (b_.vi == 1 and a_.vi == 0) else NONE())
+    if name.endswith("option::Option::<T>::or_else"):
+        o = args[0]
+        return o if o.vi == 1 else call_closure(I, args[1], [], depth)
+    if name.endswith("option::Option::<T>::zip"):
+        a_, b_ = args[0], args[1]
+        return some([a_.fields[0], b_.fields[0]]) if a_.vi == 1 and b_.vi == 1 else NONE()
+    if name.endswith("option::Option::<T>::as_deref"):
+        o = deref(I, args[0])
+        if o.vi == 0:
+            return NONE()
+        return some(as_slice(I, o.fields[0]))
     if name.endswith("cell::OnceCell::<T>::new"):
         return Adt("core::cell::OnceCell", 0, "OnceCell", [NONE()])
     if name.endswith("cell::OnceCell::<T>::get_or_init"):
@@ -918,6 +982,12 @@ def call(I, fr, name, fname, k, args, depth):
         return Adt("alloc::borrow::Cow", 1, "Owned", [args[0]])
     if name.endswith("borrow::Cow::Borrowed"):
         return Adt("alloc::borrow::Cow", 0, "Borrowed", [args[0]])
+    if name.endswith("prelude::v1::Some"):
+        return some(args[0])
+    if name.endswith("prelude::v1::Ok"):
+        return ok(args[0])
+    if name.endswith("prelude::v1::Err"):
+        return err(args[0])
     if name.endswith("option::Option::Some"):
         return some(args[0])
     if name.endswith("result::Result::Ok"):
@@ -1212,7 +1282,7 @@ def call(I, fr, name, fname, k, args, depth):
             return ok(i)
         return err(i)
     if name.endswith("Iterator::take") or name.endswith("Iterator>::take"):
-        return TakeN(args[0], args[1])
+        return TakeN(_hold(args[0]), args[1])
     if name.endswith("Iterator::rev") or name.endswith("DoubleEndedIterator>::rev") or name.endswith("Iterator>::rev"):
         it = args[0]
         if isinstance(it, RangeIter):
@@ -1230,9 +1300,9 @@ def call(I, fr, name, fname, k, args, depth):
                 return tot
             tot += deref(I, r.fields[0])
     if name.endswith("Iterator::map") or name.endswith("Iterator>::map"):
-        return MapIter(args[0], args[1])
+        return MapIter(_hold(args[0]), args[1])
     if name.endswith("Iterator::copied") or name.endswith("Iterator::cloned"):
-        return CopiedIter(args[0])
+        return CopiedIter(_hold(args[0]))
     if name.endswith("Iterator::zip"):
         return ZipIter(args[0], args[1] if not isinstance(deref(I, args[1]), (list, Slice)) else SliceIter(as_slice(I, args[1])))
     if name.endswith("Iterator::min") or name.endswith("Iterator::max"):
@@ -1398,6 +1468,50 @@ def call(I, fr, name, fname, k, args, depth):
     if name.endswith("str::<impl str>::to_uppercase"):
         sl = as_slice(I, args[0])
         return StrBuf(bytes(sl.heap[sl.start:sl.start + sl.len]).decode("utf-8", "surrogateescape").upper().encode("utf-8", "surrogateescape"))
+    if name.endswith("str::<impl str>::split") or name.endswith("str::<impl str>::lines") or name.endswith("str::<impl str>::split_terminator"):
+        a = as_slice(I, args[0])
+        hay = bytes(a.heap[a.start:a.start + a.len])
+        if name.endswith("::lines"):
+            parts = hay.split(b"\n")
+            if parts and parts[-1] == b"":
+                parts.pop()
+            parts = [p_[:-1] if p_.endswith(b"\r") else p_ for p_ in parts]
+        else:
+            b = deref(I, args[1])
+            if isinstance(b, int):
+                pat = chr(b).encode("utf-8")
+            elif isinstance(b, (Slice, StrBuf)):
+                bs = as_slice(I, b)
+                pat = bytes(bs.heap[bs.start:bs.start + bs.len])
+            else:
+                raise Unsupported("str::split pattern %r" % (b,))
+            if not pat:
+                raise Unsupported("str::split with empty pattern")
+            parts = hay.split(pat)
+            if name.endswith("split_terminator") and parts and parts[-1] == b"":
+                parts.pop()
+        # sub-slices of the same heap so that pointer arithmetic on them stays meaningful
+        out_, pos_ = [], a.start
+        for i_, p_ in enumerate(parts):
+            idx_ = bytes(a.heap[pos_:a.start + a.len]).find(p_) if p_ else 0
+            out_.append(Slice(a.heap, pos_ + max(idx_, 0), len(p_), 1))
+            pos_ = pos_ + max(idx_, 0) + len(p_)
+            if not name.endswith("::lines") and i_ + 1 < len(parts):
+                pos_ += len(pat)
+            elif name.endswith("::lines"):
+                while pos_ < a.start + a.len and a.heap[pos_] in (13, 10):
+                    pos_ += 1
+                    if a.heap[pos_ - 1] == 10:
+                        break
+        return ValIter(out_)
+    if name.endswith("str::<impl str>::strip_prefix") or name.endswith("str::<impl str>::strip_suffix"):
+        a = as_slice(I, args[0])
+        hay = bytes(a.heap[a.start:a.start + a.len])
+        b = deref(I, args[1])
+        pat = chr(b).encode("utf-8") if isinstance(b, int) else bytes(as_slice(I, b).heap[as_slice(I, b).start:as_slice(I, b).start + as_slice(I, b).len])
+        if name.endswith("prefix"):
+            return some(Slice(a.heap, a.start + len(pat), a.len - len(pat), 1)) if hay.startswith(pat) else NONE()
+        return some(Slice(a.heap, a.start, a.len - len(pat), 1)) if hay.endswith(pat) else NONE()
     if name.endswith("str::<impl str>::replace") or name.endswith("str::<impl str>::replacen"):
         a = as_slice(I, args[0])
         hay = bytes(a.heap[a.start:a.start + a.len])
@@ -1470,11 +1584,44 @@ def call(I, fr, name, fname, k, args, depth):
             last = r
     if name.endswith("string::String::as_bytes"):
         return as_slice(I, args[0])
+    if name.endswith("str::<impl str>::trim_matches") or name.endswith("str::<impl str>::trim_start_matches") or name.endswith("str::<impl str>::trim_end_matches"):
+        a = as_slice(I, args[0])
+        txt = bytes(a.heap[a.start:a.start + a.len]).decode("utf-8", "surrogateescape")
+        b = deref(I, args[1])
+        if isinstance(b, int):
+            pred = lambda ch, c_=chr(b): ch == c_  # noqa: E731
+        elif isinstance(b, list):
+            cs_ = {chr(x) for x in b}
+            pred = lambda ch: ch in cs_  # noqa: E731
+        elif isinstance(b, Adt) and b.path.startswith("closure:"):
+            pred = lambda ch: bool(call_closure(I, args[1], [ord(ch)], depth))  # noqa: E731
+        elif isinstance(b, (Slice, StrBuf)):
+            bs = as_slice(I, b)
+            pat_ = bytes(bs.heap[bs.start:bs.start + bs.len]).decode("utf-8", "surrogateescape")
+            if len(pat_) != 1:
+                raise Unsupported("trim_*_matches with a multi-character string pattern")
+            pred = lambda ch: ch == pat_  # noqa: E731
+        else:
+            raise Unsupported("trim_*_matches pattern %r" % (b,))
+        meth = name.rsplit("::", 1)[-1]
+        i_, j_ = 0, len(txt)
+        if meth in ("trim_matches", "trim_start_matches"):
+            while i_ < j_ and pred(txt[i_]):
+                i_ += 1
+        if meth in ("trim_matches", "trim_end_matches"):
+            while j_ > i_ and pred(txt[j_ - 1]):
+                j_ -= 1
+        off = len(txt[:i_].encode("utf-8", "surrogateescape"))
+        return Slice(a.heap, a.start + off, len(txt[i_:j_].encode("utf-8", "surrogateescape")), 1)
     if name.endswith("str::<impl str>::trim") or name.endswith("str::<impl str>::trim_start") or name.endswith("str::<impl str>::trim_end"):
         a = as_slice(I, args[0])
         txt = bytes(a.heap[a.start:a.start + a.len]).decode("utf-8", "surrogateescape")
         meth = name.rsplit("::", 1)[-1]
-        t2 = txt.strip() if meth == "trim" else txt.lstrip() if meth == "trim_start" else txt.rstrip()
+        RUST_WS = "\t\n\x0b\x0c\r \x85\xa0\u1680\u2000\u2001\u2002\u2003\u2004\u2005\u2006\u2007\u2008\u2009\u200a\u2028\u2029\u202f\u205f\u3000"
+        t2 = txt.strip(RUST_WS) if meth == "trim" else txt.lstrip(RUST_WS) if meth == "trim_start" else txt.rstrip(RUST_WS)
+        if True:
+            off = len(txt[:len(txt) - len(txt.lstrip(RUST_WS))].encode("utf-8", "surrogateescape")) if meth != "trim_end" else 0
+            return Slice(a.heap, a.start + off, len(t2.encode("utf-8", "surrogateescape")), 1)
         off = len(txt[:len(txt) - len(txt.lstrip())].encode("utf-8", "surrogateescape")) if meth != "trim_end" else 0
         return Slice(a.heap, a.start + off, len(t2.encode("utf-8", "surrogateescape")), 1)
     if name.endswith("str::<impl str>::chars"):
